@@ -1,5 +1,5 @@
 """One entry per property: which rules run over which configurations."""
-from rules import fd, tls, router, decode, send, mem, recv, rset
+from rules import fd, tls, router, decode, send, mem, recv, rset, ipcl, oss, asyn, parity
 
 LEVEL = {}
 
@@ -175,7 +175,7 @@ def check_C10(ctx):
 
 LEVEL["C03"] = ("Decides the structural clause of C03 only: the closed class and the would-block class of the platform error are mapped to Disconnected and Empty "
                 "exactly (ERR-MAP, both backends); a zero-length recvmsg is the only origin of 'closed' on the channel's descriptor and a negative one yields "
-                "Errno (ZERO-READ); the in-process variants follow crossbeam's classes (ERR-CLASS-INPROC); the sender's descriptor is closed only by the last "
+                "Errno (ZERO-READ, CLOSED-ORIGIN -- the latter with one known finding); the in-process variants follow crossbeam's classes (ERR-CLASS-INPROC); the sender's descriptor is closed only by the last "
                 "shared handle (FD-DROP / FD-CLOSE-OWNED of C11) and the library itself retains no sender (TLS-RESTORE of C14). Not decided: kernel reference "
                 "counting of descriptors in transit, wake-up of a blocked receive, races between the last drop and a receive.")
 
@@ -187,6 +187,8 @@ def check_C03(ctx):
     for cfg, F in ctx.configs(["K1", "K2"]):
         recv.rule_zero_read(ctx, cfg, F)
         ctx.rule("ZERO-READ").floor("recvmsg_sites[%s]" % cfg, 1, cfg)
+        recv.rule_closed_origin(ctx, cfg, F)
+        ctx.rule("CLOSED-ORIGIN").floor("closed_constructions[%s]" % cfg, 2, cfg)
         model = fd.build_model(F)
         fd.rule_fd_drop(ctx, cfg, F, model)
         fd.rule_close_owned(ctx, cfg, F, model)
@@ -288,6 +290,8 @@ def check_C13(ctx):
         send.rule_retry_fds(ctx, cfg, F)
         ctx.rule("RETRY-FDS").floor("first_fragment_sites[%s]" % cfg, 2, cfg)
         send.rule_fd_bound(ctx, cfg, F)
+        ipcl.rule_frag_contig(ctx, cfg, F)
+        recv.rule_trunc_err(ctx, cfg, F)
     ctx.assume("the receiver always offers full-size buffers, so smaller fragments fit (C01 not-decided clause)")
 
 
@@ -368,11 +372,171 @@ def _add_by_value(ctx, cfg, F):
     R.count("add_fns[%s]" % cfg, n)
 
 
+LEVEL["C04"] = ("Decides the wire-format clauses of C04 only: the index written for an endpoint or region is its position in the side table and the table is read at exactly "
+                "the integer received (IDX-POS); serialising a receiver moves it out of the user's handle (RX-MOVE); the per-message descriptor is last on both sides "
+                "(DEDICATED-LAST) and both sides keep list order (SPLIT-ORDER); to_opaque/to move the same OS endpoint (REWRAP). Not decided: identity of the kernel object "
+                "behind a descriptor, backlog preservation, multi-hop histories.")
+
+
+def check_C04(ctx):
+    for cfg, F in ctx.configs(["K1", "K3"]):
+        ipcl.rule_idx_pos(ctx, cfg, F)
+        ctx.rule("IDX-POS").floor("serialise_closures[%s]" % cfg, 3, cfg)
+        ctx.rule("IDX-POS").floor("table_accesses[%s]" % cfg, 2, cfg)
+        ipcl.rule_rx_move(ctx, cfg, F)
+        ctx.rule("RX-MOVE").floor("endpoint_pushes[%s]" % cfg, 2, cfg)
+        ipcl.rule_rewrap(ctx, cfg, F)
+        ctx.rule("REWRAP").floor("rewrap_fns[%s]" % cfg, 4, cfg)
+    for cfg, F in ctx.configs(["K1", "K2"]):
+        send.rule_dedicated_last(ctx, cfg, F)
+        ipcl.rule_split_order(ctx, cfg, F)
+        ctx.rule("SPLIT-ORDER").floor("order_sites[%s]" % cfg, 3, cfg)
+    ctx.assume("the kernel passes descriptors in SCM_RIGHTS in array order")
+
+
+LEVEL["C01"] = ("Decides bookkeeping clauses that are necessary for C01, not value equality: the length header is symmetric in type and size (HDR-SYM); fragments are contiguous "
+                "slices driven by one position variable and every first fragment announces len(data) (FRAG-CONTIG); reassembly writes at the current length (REASM-CONTIG, with "
+                "SETLEN-CAP of C18); the ipc layer and the in-process queue pass the whole buffer through unchanged (WHOLE-BUF). Not decided: equality of values, bincode "
+                "round-trip, that the receiver's buffers are large enough for every packet (fragment-size arithmetic over a runtime SO_SNDBUF), boundary lengths.")
+
+
+def check_C01(ctx):
+    for cfg, F in ctx.configs(["K1", "K2"]):
+        ipcl.rule_hdr_sym(ctx, cfg, F)
+        ctx.rule("HDR-SYM").floor("iovec0[%s]" % cfg, 2, cfg)
+        ctx.rule("HDR-SYM").floor("header_subtractions[%s]" % cfg, 1, cfg)
+        ipcl.rule_frag_contig(ctx, cfg, F)
+        ctx.rule("FRAG-CONTIG").floor("transmission_sites[%s]" % cfg, 3, cfg)
+        ipcl.rule_reasm_contig(ctx, cfg, F)
+        ctx.rule("REASM-CONTIG").floor("followup_reads[%s]" % cfg, 1, cfg)
+        mem.rule_setlen_cap(ctx, cfg, F)
+        recv.rule_trunc_err(ctx, cfg, F)
+    for cfg, F in ctx.configs(["K1", "K3"]):
+        ipcl.rule_whole_buf(ctx, cfg, F)
+        ctx.rule("WHOLE-BUF").floor("payload_sites[%s]" % cfg, 4, cfg)
+    ctx.assume("kernel packetisation keeps each sendmsg/send as one packet; bincode round-trips values")
+
+
+LEVEL["C05"] = ("Decides structural conditions necessary for C05, not byte contents: (pointer, length, store) of a region come from one map_file on the stored BackingStore and Clone "
+                "remaps a duplicated descriptor (SHM-COUPLE); one length feeds truncate, map, fill and the region (SHM-LEN); the compiled create_shmem variant truncates the "
+                "descriptor it returns (SHM-SIBLING, evaluated for shm_open and for memfd); empty-sentinel agreement (SHM-SENTINEL); mmap/munmap pairing (ALLOC-PAIR/DROP); in-process "
+                "coupling with the Arc (SHM-INPROC). Not decided: contents, page-straddling lengths, cross-process visibility (MAP_SHARED is the kernel's).")
+
+
+def check_C05(ctx):
+    for cfg, F in ctx.configs(["K1", "K2"]):
+        ipcl.rule_shm_couple(ctx, cfg, F)
+        ctx.rule("SHM-COUPLE").floor("constructions[%s]" % cfg, 4, cfg)
+        ipcl.rule_shm_len(ctx, cfg, F)
+        ctx.rule("SHM-LEN").floor("fill_ctors[%s]" % cfg, 2, cfg)
+        ipcl.rule_shm_sibling(ctx, cfg, F)
+        ctx.rule("SHM-SIBLING").floor("create_shmem[%s]" % cfg, 1, cfg)
+        with fd.domain("mem"):
+            mmodel = fd.build_model(F)
+            fd.rule_fd_path(ctx, cfg, F, mmodel, "ALLOC-PAIR", "every mmap result is unmapped exactly once or moved into the region type whose Drop unmaps it")
+            fd.rule_fd_drop(ctx, cfg, F, mmodel, "ALLOC-DROP", "the region type unmaps (ptr, length) in Drop under a null guard")
+    for cfg, F in ctx.configs(["K1", "K3"]):
+        ipcl.rule_shm_sentinel(ctx, cfg, F)
+        ctx.rule("SHM-SENTINEL").floor("sentinel_pairs[%s]" % cfg, 1, cfg)
+    for cfg, F in ctx.configs(["K3"]):
+        ipcl.rule_shm_inproc(ctx, cfg, F)
+        ctx.rule("SHM-INPROC").floor("inproc_constructions[%s]" % cfg, 3, cfg)
+    ctx.assume("mmap(MAP_SHARED) of the same object shows the same bytes in every mapping; ftruncate zero-fills")
+
+
+LEVEL["C08"] = ("Decides the 'leaves nothing behind' and naming clauses of C08 only: the server value owns its descriptor and temporary directory by RAII and accept consumes it by value "
+                "(OSS-OWN, NO-FORGET); no descriptor created for the rendezvous survives any exit of new/accept/connect (FD-PATH, FD-DROP); the name derives from a fresh TempDir / UUID "
+                "(OSS-NAME); the returned receiver is the accepted connection the first message was read from (OSS-SAMEFD). Not decided: that a client can connect before or after accept, "
+                "messages sent before accept or by an exited client, sun_path truncation for very long TMPDIR.")
+
+
+def check_C08(ctx):
+    for cfg, F in ctx.configs(["K1"]):
+        oss.rule_oss_own(ctx, cfg, F, "unix")
+        oss.rule_oss_name(ctx, cfg, F, "unix")
+        oss.rule_oss_samefd(ctx, cfg, F)
+        ctx.rule("OSS-SAMEFD").floor("accept_sites[%s]" % cfg, 1, cfg)
+        model = fd.build_model(F)
+        fd.rule_fd_path(ctx, cfg, F, model)
+        ctx.rule("FD-PATH").floor("sources[%s]" % cfg, 9, cfg)
+        fd.rule_fd_drop(ctx, cfg, F, model)
+        fd.rule_no_forget(ctx, cfg, F)
+    for cfg, F in ctx.configs(["K3"]):
+        oss.rule_oss_own(ctx, cfg, F, "inprocess")
+        oss.rule_oss_name(ctx, cfg, F, "inprocess")
+        fd.rule_no_forget(ctx, cfg, F)
+    for cfg in ("K1", "K3"):
+        if cfg in ctx._facts:
+            ctx.rule("OSS-OWN").floor("accept_fns[%s]" % cfg, 2, cfg)
+            ctx.rule("OSS-NAME").floor("new_fns[%s]" % cfg, 1, cfg)
+    ctx.assume("tempfile::TempDir deletes its directory (and the socket file in it) on drop; Uuid::new_v4 is unique")
+
+
+LEVEL["C20"] = ("Decides the protocol-shape clauses of C20 only (feature `async`, both backends): the route is enqueued before the wake-up and the stream is paired with the enqueued "
+                "sender (AS-ORDER); every select-to-select cycle drains the route queue and installs each pair under the id of its own receiver (AS-DRAIN); a message event is forwarded "
+                "once to the sender of its id (AS-FWD); a closed event removes that sender, ending the stream (AS-REMOVE). Not decided: waker behaviour (futures crate), order and "
+                "exactly-once as observed (inherits C06).")
+
+
+def check_C20(ctx):
+    for cfg, F in ctx.configs(["K4", "K5"]):
+        asyn.rule_as_order(ctx, cfg, F)
+        ctx.rule("AS-ORDER").floor("to_stream[%s]" % cfg, 1, cfg)
+        asyn.rule_as_loop(ctx, cfg, F)
+        ctx.rule("AS-DRAIN").floor("routing_fns[%s]" % cfg, 1, cfg)
+        ctx.rule("AS-DRAIN").floor("install_sites[%s]" % cfg, 1, cfg)
+        ctx.rule("AS-FWD").floor("message_paths[%s]" % cfg, 1, cfg)
+        ctx.rule("AS-REMOVE").floor("closed_paths[%s]" % cfg, 1, cfg)
+    for c in ("K4", "K5"):
+        if c in ctx.unavailable:
+            ctx.rule("BUILD").violate("%s:does-not-compile" % c, "the async configuration %s does not compile: %s" % (c, ctx.unavailable[c][0]), config=c)
+    ctx.assume("futures::channel::mpsc unbounded channels are FIFO and wake the polling task on send; dropping the last UnboundedSender ends the stream")
+
+
+LEVEL["C19"] = ("Decides the build- and surface-level clauses of C19 only: every Linux configuration type-checks against the shared layers (BUILD-ALL); the OS and in-process transports "
+                "export the same platform surface (SURFACE-PARITY); both satisfy the same error-class mapping (ERR-MAP), mode table (MODE-TABLE), id provenance (SET-ID), side-table "
+                "discipline (TLS-RESTORE) and decode rules, evaluated per backend and reported side by side. Not decided: result sequences of programs; the ideal-FIFO comparison.")
+
+
+def check_C19(ctx):
+    parity.rule_build_all(ctx, ["K1", "K2", "K3", "K4", "K5"])
+    try:
+        Fa, Fb = ctx.F("K1"), ctx.F("K3")
+        parity.rule_surface_parity(ctx, Fa, Fb)
+        ctx.rule("SURFACE-PARITY").floor("unix_functions", 18)
+        ctx.rule("SURFACE-PARITY").floor("inprocess_functions", 18)
+    except Exception as e:
+        if not isinstance(e, report_ConfigUnavailable):
+            raise
+    for cfg, F in ctx.configs(["K1", "K3"]):
+        recv.rule_err_map(ctx, cfg, F)
+        recv.rule_mode_table(ctx, cfg, F)
+        tls.rule_tls_restore(ctx, cfg, F)
+        rset.rule_set_id(ctx, cfg, F, "unix" if cfg == "K1" else "inprocess")
+        ipcl.rule_idx_pos(ctx, cfg, F)
+    ctx.assume("the macOS and Windows backends cannot be type-checked on this host and are out of scope")
+
+
+from vlib.report import ConfigUnavailable as report_ConfigUnavailable  # noqa: E402
+
+
 # --------------------------------------------------------------------------- registry metadata
 NOT_APPLICABLE = {}
 WITNESS_PROPS = []
 _TECH = "static analysis over rustc MIR facts: "
 META = {
+    "C20": {"technique": _TECH + "dominance of enqueue over wake-up, segment summaries of the routing loop (per event and per select cycle), provenance of installed pairs",
+            "note": "trusted: futures mpsc semantics; only built with the async feature (K4, K5)"},
+    "C19": {"technique": "rustc type-checking of all five Linux configurations + " + _TECH + "comparison of the exported platform surfaces and per-backend instances of the shared rules",
+            "note": "differential behaviour over programs is not decided; macOS/Windows excluded"},
+    "C08": {"technique": _TECH + "ownership/RAII shape rules on the server type, provenance of the server name and the accepted descriptor, descriptor typestate on new/accept/connect",
+            "note": "trusted: TempDir and Uuid behave as documented; connect/accept histories are runtime"},
+    "C04": {"technique": _TECH + "provenance of serialised indices and table accesses across closures and helpers; ordering rules on the descriptor lists",
+            "note": "trusted: SCM_RIGHTS preserves array order; identity of kernel objects is not decided"},
+    "C01": {"technique": _TECH + "symbolic-expression shape rules on the header, fragment slices and reassembly window; provenance of payload buffers",
+            "note": "value equality and fragment-size arithmetic are not decided"},
+    "C05": {"technique": _TECH + "provenance/coupling of (pointer,length,store), symbolic equality of the length's four uses, sentinel edge summaries, mapping typestate",
+            "note": "byte contents are not decided"},
     "C06": {"technique": _TECH + "path-sensitive exploration of the per-member read loop with accumulated result/closed/would-block facts; provenance of ids",
             "note": "trusted: mio edge-triggered registration, epoll queueing, crossbeam Select; schedules are not explored"},
     "C09": {"technique": _TECH + "result-sign path summaries of the transmitters; pending-error exploration of the platform send",
